@@ -70,7 +70,7 @@ func NewReplay(path string) (*H, *Record, error) {
 		// "preempt at point:NAME: thread a -> b"
 		if strings.HasPrefix(n, "preempt at point:") {
 			rest := strings.TrimPrefix(n, "preempt at point:")
-			if k := strings.Index(rest, ":"); k > 0 {
+			if k := strings.Index(rest, ": thread"); k > 0 {
 				h.hints[rest[:k]]++
 			}
 		}
@@ -298,6 +298,13 @@ func (h *H) FireTimer(name string, wait time.Duration) bool {
 	return false
 }
 
+// SymbolicLocks makes every Lock/RLock call of the code under test a scheduling
+// point (named lock:<file>:<line>) under SymbolicSched. Natively the replay
+// build inserts verifhook.Point("lock:<file>:<line>") before the same calls
+// (source instrumentation through the go test overlay), so recorded schedules
+// are replayed by pausing the goroutine there.
+func (h *H) SymbolicLocks() {}
+
 // SymbolicMapOrder makes the starting position of the next n map range
 // statements executed by the code under test a symbolic choice (Go randomises
 // it). Natively the runtime picks; replays of such paths are retried.
@@ -401,7 +408,9 @@ func (h *H) CrashWindowStart() {
 	h.crashAt = int(h.vals["crashpos"])
 	h.windowOpen = true
 	verifhook.SetCallback(func(name string) {
-		if !h.windowOpen {
+		if !h.windowOpen || strings.HasPrefix(name, "lock:") {
+			// lock:<file>:<line> points exist only in the instrumented replay build
+			// (scheduling points); they are not crash boundaries of the engine
 			return
 		}
 		if h.hits == h.crashAt {
